@@ -29,6 +29,21 @@ Definition leak_of (c : cfg) (st : astate) (o : op) : list N :=
       match get_a v st with Some a => skipn (length (a_xs a) - 1) (a_xs a) | None => [] end
   | ORemove _ v idx KForget | OSwapRemove _ v idx KForget =>
       match get_a v st with Some a => skipn (N.to_nat idx) (a_xs a) | None => [] end
+  | ODrain _ v sb eb pat FinForget =>
+      (* a leaked drain: the not yet yielded part of the range and the tail behind it *)
+      match get_a v st with
+      | Some a =>
+          let xs := a_xs a in
+          match range_of_bounds usize_max (N.of_nat (length xs)) (to_sb sb) (to_sb eb) with
+          | Some (s, e) =>
+              match sp_walk xs pat (N.to_nat s) (N.to_nat e) with
+              | Some (_, _, i, j) => firstn (j - i) (skipn i xs) ++ skipn (N.to_nat e) xs
+              | None => []
+              end
+          | None => []
+          end
+      | None => []
+      end
   | ONew dst bk =>
       (* a vector built into an occupied slot replaces what was there *)
       match bk with
@@ -279,6 +294,85 @@ Proof.
   end; cbn [ok_res panic_res s_nx s_st s_evs drops flat_map]; perm_count.
 Qed.
 
+(** the values a walk hands out plus those it leaves un-yielded are the cursor's range *)
+Lemma sp_walk_perm xs : forall pat i j rets ds i' j',
+  (i <= j)%nat -> (j <= length xs)%nat ->
+  sp_walk xs pat i j = Some (rets, ds, i', j') ->
+  Permutation (ds ++ firstn (j' - i') (skipn i' xs)) (firstn (j - i) (skipn i xs)) /\ (i <= i')%nat /\ (i' <= j')%nat /\ (j' <= j)%nat.
+Proof.
+  induction pat as [|[front sk] pat IH]; intros i j rets ds i' j' Hij Hj Hs; cbn [sp_walk] in Hs.
+  - injection Hs as <- <- <- <-. cbn [app]. split; [reflexivity|lia].
+  - destruct (Nat.eqb_spec i j) as [Heq|Hne].
+    + destruct (sp_walk xs pat i j) as [[[[r0 d0] i0] j0]|] eqn:E; [|discriminate].
+      injection Hs as <- <- <- <-. apply (IH i j r0 d0 i0 j0 Hij Hj E).
+    + set (idx := if front then i else (j - 1)%nat) in *.
+      set (i1 := if front then S i else i) in *. set (j1 := if front then j else (j - 1)%nat) in *.
+      destruct (match sk with KDrop => Some [] | KDown => Some [nth idx xs 0] | _ => None end) as [out|]; [|discriminate].
+      destruct (sp_walk xs pat i1 j1) as [[[[r0 d0] i0] j0]|] eqn:E; [|discriminate].
+      injection Hs as <- <- <- <-.
+      assert (H1 : (i1 <= j1)%nat /\ (j1 <= length xs)%nat) by (unfold i1, j1; destruct front; lia).
+      destruct (IH i1 j1 r0 d0 i0 j0 (proj1 H1) (proj2 H1) E) as (Hp & Hb).
+      split; [|unfold i1, j1 in Hb; destruct front; lia].
+      cbn [app]. unfold idx, i1, j1 in *. destruct front.
+      * (* front: range = xs[i] :: range(i+1, j) *)
+        rewrite Hp. replace (j - i)%nat with (S (j - S i)) by lia.
+        rewrite (skipn_nth_cons 0 xs i) by lia. cbn [firstn]. reflexivity.
+      * (* back: range = range(i, j-1) ++ [xs[j-1]] *)
+        rewrite Hp. replace (j - i)%nat with ((j - 1 - i) + 1)%nat by lia.
+        rewrite <- (firstn_skipn (j - 1 - i) (firstn (j - 1 - i + 1) (skipn i xs))).
+        rewrite firstn_firstn. replace (Nat.min (j - 1 - i) (j - 1 - i + 1)) with (j - 1 - i)%nat by lia.
+        assert (Hl : skipn (j - 1 - i) (firstn (j - 1 - i + 1) (skipn i xs)) = [nth (j - 1) xs 0]).
+        { rewrite skipn_firstn_comm. replace (j - 1 - i + 1 - (j - 1 - i))%nat with 1%nat by lia.
+          rewrite skipn_skipn_add. replace (i + (j - 1 - i))%nat with (j - 1)%nat by lia.
+          rewrite (skipn_nth_cons 0 xs (j - 1)) by lia. reflexivity. }
+        rewrite Hl. apply Permutation_cons_append.
+Qed.
+
+Lemma drops_yielded ds : drops (flat_map (drop_ev c) ds) = ds.
+Proof.
+  induction ds as [|t ds IH]; [reflexivity|]. cbn [flat_map]. unfold drops in *. rewrite flat_map_app, IH.
+  unfold drop_ev. rewrite Hdg. reflexivity.
+Qed.
+Lemma drops_app a b : drops (a ++ b) = drops a ++ drops b.
+Proof. unfold drops. apply flat_map_app. Qed.
+
+Lemma drain_own st nx v sb eb pat f r D L :
+  sp_drain c st nx v sb eb pat f = Some r ->
+  Permutation (created c nx) (vis st ++ D ++ L) ->
+  Permutation (created c (s_nx r))
+    (vis (s_st r) ++ (D ++ drops (s_evs r)) ++ (L ++ leak_of c st (ODrain Erased v sb eb pat f))).
+Proof.
+  intros Hr Hinv. unfold sp_drain in Hr. cbn [leak_of].
+  destruct (get_a v st) as [a|] eqn:Hg; [|discriminate]. cbv zeta in Hr.
+  set (xs := a_xs a) in *.
+  pose proof (vis_get_any st v) as Hvis. rewrite Hg in Hvis. cbn [slot_xs] in Hvis. fold xs in Hvis.
+  destruct (range_of_bounds usize_max (N.of_nat (length xs)) (to_sb sb) (to_sb eb)) as [[sN eN]|] eqn:Erb.
+  - assert (Hb : sN <= eN /\ eN <= N.of_nat (length xs)).
+    { unfold range_of_bounds in Erb.
+      repeat match type of Erb with
+      | context [match ?x with _ => _ end] => destruct x eqn:?; try discriminate
+      | context [if ?x then _ else _] => destruct x eqn:?; try discriminate
+      end.
+      injection Erb as <- <-. match goal with H : (_ && _)%bool = true |- _ => apply andb_prop in H; destruct H as [H1 H2] end.
+      apply N.leb_le in H1, H2. lia. }
+    set (s := N.to_nat sN) in *. set (e := N.to_nat eN) in *.
+    assert (Hse : (s <= e)%nat) by lia. assert (Hel : (e <= length xs)%nat) by lia.
+    destruct (sp_walk xs pat s e) as [[[[rets ds] i] j]|] eqn:Ew; [|discriminate].
+    destruct (sp_walk_perm xs pat s e rets ds i j Hse Hel Ew) as (Hp & Hb1 & Hb2 & Hb3).
+    pose proof (sp_drain_perm xs s e Hse Hel) as Hd. unfold sp_drained in Hd.
+    destruct f; injection Hr as <-; cbn [ok_res s_nx s_st s_evs].
+    + pose proof (vis_set_any st v (Some (with_xs a (VecSpec.sp_drain s e xs)))) as H1. cbn [slot_xs with_xs a_xs] in H1.
+      rewrite drops_app, drops_yielded, Hdg, drops_map. perm_count.
+    + pose proof (vis_set_any st v (Some (with_xs a (firstn s xs)))) as H1. cbn [slot_xs with_xs a_xs] in H1.
+      rewrite drops_yielded.
+      assert (Hx : Permutation xs (firstn s xs ++ firstn (e - s) (skipn s xs) ++ skipn e xs)).
+      { rewrite <- (firstn_skipn s xs) at 1. apply Permutation_app_head.
+        rewrite (skipn_split_range xs s e Hse) at 1. reflexivity. }
+      perm_count.
+  - injection Hr as <-. cbn [panic_res s_nx s_st s_evs drops flat_map].
+    destruct f; perm_count.
+Qed.
+
 Lemma app_nil_perm (l : list N) : Permutation (l ++ []) l.
 Proof. rewrite app_nil_r. reflexivity. Qed.
 
@@ -326,6 +420,7 @@ Proof.
     destruct (get_a v st) as [av|]; [|discriminate].
     destruct (idx <? N.of_nat (length (a_xs av))); injection Hr as <-;
       cbn [ok_res panic_res s_nx s_st s_evs leak_of drops flat_map]; perm_count.
+  - exact (drain_own st nx v sb eb pat f r D L Hr Hinv).
   - exact (capacity_own st nx v (Some n) false r D L Hr Hinv).
   - exact (capacity_own st nx v (Some n) true r D L Hr Hinv).
   - exact (capacity_own st nx v None false r D L Hr Hinv).
@@ -349,7 +444,7 @@ Fixpoint hist_leaks (c : cfg) (st : astate) (nx : N) (ops : list op) : list N :=
 Lemma spec_nx_mono c st nx o r : spec_step c st nx o = Some r -> nx <= s_nx r.
 Proof.
   intros H. destruct o; cbn [spec_step] in H; try discriminate;
-    unfold sp_offer, sp_take, sp_take_elem, sp_capacity in H; cbv zeta in H;
+    unfold sp_offer, sp_take, sp_take_elem, sp_capacity, sp_drain in H; cbv zeta in H;
     repeat match type of H with
     | Some _ = Some _ => injection H as <-
     | None = Some _ => discriminate H
